@@ -73,6 +73,15 @@ P["C17"] = dict(cat="proof",
          "matrices x algorithm x seriesParallel x violator requested, random/structured multi-block matrices.",
     note=NOTE_COMMON, tech="Coq proof (oracle = definition) + extracted judge run against CMRbalancedTest", ref="DESIGN.md C17")
 
+P["C09"] = dict(cat="proof",
+    text="Coq: judge soundness: acceptance means support/shape kept, test = 'signing changes nothing' (fixpoint), output passes the test, "
+         "idempotent, TU => yes, regular support => output TU and (yes => TU) for up to 20 entries, violator = two nonzeros per line with "
+         "det +-2 (and thereby a TU-violator by the proved checker). Tie: all signings of all supports with m*n <= 9/12, random to 6x6, "
+         "structured (network, R10, R12, sums, scaled, permuted, corrupted).",
+    note=NOTE_COMMON + "Camion's theorem is not formalised: 'regular support => output TU' is checked per instance against the proved oracles "
+         "(regular_bf, tu_bf), not proved for all sizes; the BFS signing algorithm is not modelled structurally.",
+    tech="extracted Coq judge over proved oracles (tu_bf = det definition, regular_bf = signable-to-TU) + observed fixpoint behaviour", ref="DESIGN.md C09")
+
 ORDER = ["C%02d" % i for i in range(1, 21)]
 
 
